@@ -3,7 +3,7 @@ import hashlib
 import re
 
 NA = "006e61"  # hex of "\x00na"
-FIELDS = ("route=", "u0=", "u1=", "chains=", "ran=", "long=", "code=", "dirty=", "laws=", "alts=", "all=")
+FIELDS = ("route=", "u0=", "u1=", "ux=", "chains=", "ran=", "long=", "code=", "dirty=", "laws=", "alts=", "all=")
 
 
 def parse_out(line):
@@ -108,6 +108,8 @@ def cmp_dispatch(sess, R, M, params=False, chains=False, setup=False, urls=False
             ok = ok and r.get("u0") == m.get("u0")
             if m.get("long") == "1":
                 ok = ok and r.get("u1") == m.get("u1")
+            if "ux" in r and "ux" in m:
+                ok = ok and r["ux"] == m["ux"]      # the URL of another named route built without values
             if not ok:
                 bad.append(i)
     return bad
